@@ -201,7 +201,7 @@ def run_workers(engine, seed, tier, budget_s, max_runs, extra_args=(), workers=N
         sel.register(p.stdout, selectors.EVENT_READ, p)
         bufs[p.pid] = b""
     t0 = time.monotonic()
-    hard = hard_timeout or (budget_s * 3 + 120)
+    hard = hard_timeout or (budget_s * 3 + 420)
     live = len(procs)
     try:
         while live:
